@@ -522,6 +522,10 @@ func (w *worker) transports() {
 		`{ nosuchfield }`,
 		`!{"query": "{ an { vid }", "variables": 5`,
 		`!`,
+		// a panic while a payload is serialized (custom scalar marshaler) unwinds the transport on the
+		// handler's goroutine: what the transport started for the response must still be torn down
+		`{ scalar xboom(b: "mpanic:1") }`,
+		`{ scalar ... @defer { xboom(b: "mpanic:7") } }`,
 	}
 	n := 0
 	rounds := ev.Pick(3, 20)
@@ -534,6 +538,10 @@ func (w *worker) transports() {
 					run := &univ.Run{Plan: p}
 					id := fmt.Sprint("r", n)
 					runs.Store(id, run)
+					if mode == "server-cancel" && strings.Contains(q, "mpanic") {
+						runs.Delete(id)
+						continue
+					}
 					if mode == "server-cancel" {
 						// cancel inside the first resolver that is not a root field
 						clean := ref.Execute(w.env, p, mustParse(q), "", nil, ref.Options{})
